@@ -13,7 +13,7 @@ import gal
 import lexcommon as lc
 from yaql.language import exceptions
 
-GEN = ["charclass", "lexfacts"]
+GEN = ["charclass", "lexfacts", "optables"]
 RULE = ("texts: all sequences of <=2 (quick; thorough <=3) items of the token alphabet (every token kind, every "
         "operator string, every literal, illegal characters, unterminated quotes) joined with '' and ' ', token "
         "soups, valid expressions with one character inserted/deleted/substituted, every backslash-escape shape "
@@ -287,6 +287,7 @@ def correspondence(run):
     nlong = sum(1 for m in meta if m[0] == "long")
     cases = [cases[i] for i in order]
     meta = [meta[i] for i in order]
+    custom_table_correspondence(run)
     bad = run.coq_mismatches(HEADER, "case", "case_ok", cases[:nlong], shard=6)
     bad += [nlong + i for i in run.coq_mismatches(HEADER, "case", "case_ok", cases[nlong:], shard=run.n(300, 500))]
     for i in bad[:20]:
@@ -315,6 +316,142 @@ def correspondence(run):
                  {"input": lc.compress(small), "input_repr": lc.printable(small), "generator": kind,
                   "impl_tokens": [(k, p, n, str(v)[:60]) for k, p, n, v in tk[:20]], "impl_lex_end": list(en),
                   "impl_engine": [str(x) for x in ou[:2]] if ou[0] != "ok" else ["ok"], "model": model})
+
+
+# ---------------------------------------------------------------- customised operator tables (Model/LexerTables.v)
+TABLE_HEADER = "From YV Require Import Model.OpTable Model.Lexer Model.LexerTables."
+KIND = {"PREFIX_UNARY": "KPrefix", "SUFFIX_UNARY": "KSuffix", "BINARY_LEFT_ASSOCIATIVE": "KLeft",
+        "BINARY_RIGHT_ASSOCIATIVE": "KRight", "NAME_VALUE_PAIR": "KNameValue"}
+
+# (label, keyword_operator, legacy, removed symbols, inserts (existing, existing_is_binary, new, type, new_group), texts' extra alphabet)
+TABLE_SPECS = [
+    ("default", "=>", False, [], [], []),
+    ("legacy", None, True, [], [], []),
+    ("no keyword operator", None, False, [], [], []),
+    ("keyword operator :=", ":=", False, [], [], [":=", ":", "="]),
+    ("suffix !, binary **", "=>", False, [], [("not", False, "!", "SUFFIX_UNARY", True), ("*", True, "**", "BINARY_RIGHT_ASSOCIATIVE", False)],
+     ["!", "**", "!=", "!~", "***"]),
+    ("suffix %%, prefix ~, word nand", "=>", False, [], [(".", True, "%%", "SUFFIX_UNARY", False), ("-", False, "~", "PREFIX_UNARY", False),
+                                                        ("and", True, "nand", "BINARY_LEFT_ASSOCIATIVE", False)], ["%%", "%", "~", "nand", "=~", "nandx"]),
+    ("words contains/negate/exists", "=>", False, [], [("in", True, "contains", "BINARY_LEFT_ASSOCIATIVE", False),
+                                                       ("not", False, "negate", "PREFIX_UNARY", False),
+                                                       (None, True, "exists", "SUFFIX_UNARY", True)], ["contains", "negate", "exists", "contain"]),
+    ("without in/and/or/not/mod", "=>", False, ["in", "and", "or", "not", "mod"], [], []),
+    ("without {} . ?.", "=>", False, ["{}", ".", "?."], [], []),
+    ("regex-special symbols", "=>", False, [], [("+", True, "|", "BINARY_LEFT_ASSOCIATIVE", False), ("+", True, "&&", "BINARY_LEFT_ASSOCIATIVE", False),
+                                               ("+", True, "^", "BINARY_LEFT_ASSOCIATIVE", True), ("=", True, "===", "BINARY_LEFT_ASSOCIATIVE", False),
+                                               (".", True, "..", "BINARY_LEFT_ASSOCIATIVE", False), ("=", True, "<>", "BINARY_LEFT_ASSOCIATIVE", False),
+                                               ("-", False, "#", "PREFIX_UNARY", False), ("=", True, "<=>", "BINARY_LEFT_ASSOCIATIVE", False)],
+     ["|", "&&", "&", "^", "===", "==", "..", "...", "<>", "#", "<=>", "?"]),
+    ("many operators (two-letter token names)", "=>", False, [], [("+", True, s_, "BINARY_LEFT_ASSOCIATIVE", False) for s_ in
+                                                                 ["@", "@@", "%", "%%%", "!!", "~~", "::", ";", ";;", "<<", ">>", "op1", "op2"]],
+     ["@", "@@", "@@@", "%", "%%%", "!!", "~~", "::", ";", ";;", "<<", ">>", "op1", "op2", "op3"]),
+]
+TABLE_BASE = ["5", "'a'", "true", "foo", "$x", "(", ")", "[", "]", ",", ".", "-", "+", "*", "not", "and", "in", "mod", "f(", "1.5",
+              "`v`", "{", "}", "=>", "null", "=", ">", "<", ">=", "!=", "?.", "->", "/", " ", "__x", "é"]
+
+
+def build_table_engine(spec):
+    import yaql
+    from yaql import legacy
+    from yaql.language import factory
+    label, kwop, leg, removed, inserts, _ = spec
+    f = legacy.YaqlFactory() if leg else factory.YaqlFactory(keyword_operator=kwop)
+    if removed:
+        f.operators = [op for op in f.operators if not op or op[0] not in removed]
+    for existing, is_binary, new, kind, group in inserts:
+        f.insert_operator(existing, is_binary, new, getattr(factory.OperatorType, kind), group)
+    return f, f.create()
+
+
+def oplist_term(ops):
+    def entry(t):
+        if len(t) < 2:
+            return "Sep"
+        alias = t[2] if len(t) > 2 else None
+        return "(Op %s %s %s)" % (gal.s(t[0]), KIND[t[1]], gal.opt(alias, gal.s))
+    return gal.lst(entry(t) for t in ops)
+
+
+def run_lexer_of(eng, text):
+    saved = lc._engine
+    lc._engine = eng
+    try:
+        return lc.run_lexer(text)
+    finally:
+        lc._engine = saved
+
+
+def live_rule_order(eng):
+    """token types of the string rules of the engine's master regex, in order, without the rules that can never match"""
+    out = []
+    rules_obj = None
+    for rx, indexfunc in eng.lexer.lexre:
+        for entry in indexfunc:
+            if entry and entry[0] is not None and hasattr(entry[0], "__self__"):
+                rules_obj = entry[0].__self__
+    for rx, indexfunc in eng.lexer.lexre:
+        for entry in indexfunc:
+            if entry and entry[0] is None:
+                src = getattr(rules_obj, "t_" + entry[1], None)
+                if src == "(?!x)x":
+                    continue
+                out.append(entry[1])
+    return out
+
+
+def custom_table_correspondence(run):
+    """Token streams of real engines with customised operator tables vs lex (cfg_of_ops factory.operators ...), and the
+    order of the string rules of their master regex vs the order Model/LexerTables.v computes."""
+    import itertools
+    import re
+    rng = run.rng
+    cases, meta = [], []
+    for spec in TABLE_SPECS:
+        label = spec[0]
+        try:
+            f, eng = build_table_engine(spec)
+        except Exception as e:
+            run.fail("mismatch", "a customised engine of the correspondence could not be built", {"engine": label, "error": repr(e)})
+            continue
+        ops = oplist_term(f.operators)
+        # rule order
+        try:
+            txt = run.coq_eval(TABLE_HEADER, "rule_order %s" % ops)
+            model_order = ["".join(chr(int(x)) for x in m.split(";")) for m in re.findall(r"\[([0-9; \n]+)\]", txt.split("Some", 1)[-1])]
+        except Exception as e:
+            model_order = ["<model failed: %r>" % e]
+        live = live_rule_order(eng)
+        run.case(("rule-order", label), nontrivial=True)
+        run.count("table:rule-order:" + ("same" if live == model_order else "different"))
+        if live != model_order:
+            run.fail("mismatch", "the order of the string rules of a customised engine's master regex differs from the model's",
+                     {"engine": label, "live": live, "model": model_order})
+        alphabet = TABLE_BASE + spec[5]
+        texts = [a for a in alphabet] + [a + b for a in alphabet for b in spec[5] + ["", " "]] + [b + a for a in alphabet for b in spec[5]]
+        for _ in range(run.n(120, 2500)):
+            texts.append(rng.choice(["", " "]).join(rng.choice(alphabet) for _ in range(rng.randrange(2, 7))))
+        texts = list(dict.fromkeys(texts))
+        if run.quick and len(texts) > 260:
+            texts = texts[:60] + rng.sample(texts[60:], 200)
+        for t in texts:
+            toks, end = run_lexer_of(eng, t)
+            run.case(("table", label, t), nontrivial=True)
+            run.count("table:" + label)
+            cases.append("{| t_ops := %s; t_text := %s; t_names := []; t_tokens := %s; t_lexend := %s |}" % (
+                ops, lc.text_term(t),
+                gal.lst("(%s, %s, %s, %s)" % (gal.s(k), gal.z(p_), gal.z(n), lc.val_term(v)) for k, p_, n, v in toks), outcome_term(end)))
+            meta.append((label, t, toks, end))
+    bad = run.coq_mismatches(TABLE_HEADER, "tcase", "tcase_ok", cases, shard=run.n(120, 300))
+    seen = set()
+    for i in bad:
+        label, t, toks, end = meta[i]
+        if label in seen:
+            continue
+        seen.add(label)
+        run.fail("mismatch", "the lexer model built from a customised operator table and the real engine's lexer disagree",
+                 {"engine": label, "input_repr": lc.printable(t), "impl_tokens": [(k, p_, n, str(v)[:40]) for k, p_, n, v in toks[:12]],
+                  "impl_lex_end": list(end)})
 
 
 def shrink_small(text, differs):
